@@ -390,6 +390,13 @@ PairedUnlessFailed ==
                    /\ Count("creating_models") = Count("created_models")
 NoTerminalWithoutEvolving ==
     Count("evolving") = 0 => Count("evolved") + Count("evolving_failed") = 0
+(* an end signal says that what its opening signal announced was done: the unit in which a
+   statement failed never gets one *)
+EndSignalsTruthful ==
+    (pc \in {"failing", "failed"} /\ fault # <<>>) =>
+        /\ fault[1] = "evolve" =>
+              ~\E k \in 1..Len(sigs) : sigs[k][1] = "applied_evolution" /\ sigs[k][2] = fault[2]
+        /\ fault[1] = "create" => Count("created_models") = 0
 
 (* the partial-state marker only exists in states a correct run never leaves behind *)
 NoPartialAtRest == pc = "idle" => \A a \in AppSet : part[a] = 0 /\ ~g2[a]
